@@ -173,6 +173,11 @@ func (c *ChangesCursor) Next() error {
 			return nil
 		}
 		if de.NewValue != nil {
+			row, _ := de.NewValue.(*v1proto.Row)
+			if row == nil || row.Deleted {
+				// deleted in the 'to' version: not one of its rows
+				continue
+			}
 			c.currentRow = de.NewValue.(*v1proto.Row)
 			c.currentKey = de.Key.(*s3db.Key)
 			return nil
